@@ -4,7 +4,10 @@ open Lean
 namespace Driver
 open Ucfg
 
-partial def parseTy (j : Json) : R Ty := do
+/-- a type description; `tk` / `vk` name the entries holding the field tag and the validator tag (the StructTag and
+ValidatorTag options select other tags than `config` / `validate`) -/
+partial def parseTyK (tk vk : String) (j : Json) : R Ty := do
+  let parseTy := parseTyK tk vk
   let t ← strField j "t"
   match t with
   | "ptr" => pure (.ptr (← parseTy (← j.getObjVal? "e")))
@@ -13,7 +16,7 @@ partial def parseTy (j : Json) : R Ty := do
   | "map" => pure (.map (← parseTy (← j.getObjVal? "e")))
   | "struct" =>
     let fs ← (← (← j.getObjVal? "f").getArr?).toList.mapM (fun f => do
-      pure ((← strField f "n"), strFieldD f "tag" "", strFieldD f "v" "", (← parseTy (← f.getObjVal? "ty"))))
+      pure ((← strField f "n"), strFieldD f tk "", strFieldD f vk "", (← parseTy (← f.getObjVal? "ty"))))
     pure (.strct fs)
   | "iface" => pure .iface
   | "regexp" => pure .regexp
@@ -27,6 +30,18 @@ partial def parseTy (j : Json) : R Ty := do
   | "uint16" => pure (.prim (.uint 16)) | "uint32" => pure (.prim (.uint 32))
   | "float32" => pure (.prim (.float 32)) | "float64" => pure (.prim (.float 64))
   | _ => throw s!"bad type {t}"
+
+def parseTy (j : Json) : R Ty := parseTyK "tag" "v" j
+
+/-- the tag entries selected by a list of options -/
+def tagKeys (opts : Json) : String × String :=
+  match opts with
+  | .arr os => os.foldl (fun (tk, vk) o =>
+      match strFieldD o "o" "", strFieldD o "v" "" with
+      | "StructTag", x => (if x == "config" then "tag" else x, vk)
+      | "ValidatorTag", x => (tk, if x == "validate" then "v" else x)
+      | _, _ => (tk, vk)) ("tag", "v")
+  | _ => ("tag", "v")
 
 partial def parseGoVal (j : Json) : R GoVal := do
   if let some v := optField j "b" then pure (.scalar (.bool (← v.getBool?)))
